@@ -1,86 +1,4 @@
 import GraphSlam.Core.Scalar
 
-/-! GENERATED by tools/translate/py2lean_graph.py from /repo/graphslam/graph.py — do not edit.
-
-Decision expressions of `Graph.optimize`, `_Chi2GradientHessian.update`, `Graph._calc_chi2_gradient_hessian` and
-`Graph._initialize` as found in the current source.  `GraphSlam/Props/Tie/GraphPy.lean` proves that the hand-written models
-use exactly these expressions. -/
-
-set_option linter.unusedVariables false
-
-namespace GraphSlam.Gen
-open GraphSlam
-
-/-- `graphslam/graph.py:445`  `chi2_prev = -1.0`  sha256 2aeaeb53983bed74 -/
-def GraphPy.optimize_chi2_prev_init {E : Type} [ScalarF E] : E :=
-  Scalar.ofInt (-1)
-
-/-- `graphslam/graph.py:462`  `if i > 0:`  sha256 044077e65f5219e1 -/
-def GraphPy.optimize_check_guard (i : Nat) : Bool :=
-  (decide (i > 0))
-
-/-- `graphslam/graph.py:463`  `rel_diff = (chi2_prev - self._chi2) / (chi2_prev + np.finfo(float).eps)`  sha256 ffbbb20a95c7b01c -/
-def GraphPy.optimize_rel_diff_loop {E : Type} [ScalarF E] (eps chi2_prev chi2 : E) : E :=
-  (ScalarF.div (chi2_prev - chi2) (chi2_prev + eps))
-
-/-- `graphslam/graph.py:471`  `if self._chi2 <= chi2_prev and rel_diff < tol:`  sha256 ff3125695e7d8a33 -/
-def GraphPy.optimize_stop_loop {E : Type} [ScalarF E] (tol chi2_prev chi2 rel_diff : E) : Bool :=
-  (ScalarF.ge chi2_prev chi2 && ScalarF.gt tol rel_diff)
-
-/-- `graphslam/graph.py:497`  `if v.gradient_index in self._fixed_gradient_indices:`  sha256 c53dec9cacdfb921 -/
-def GraphPy.optimize_update_skip (fixed : List Nat) (g : Nat) : Bool :=
-  (fixed).contains g
-
-/-- `graphslam/graph.py:510`  `rel_diff = (chi2_prev - self._chi2) / (chi2_prev + np.finfo(float).eps)`  sha256 ffbbb20a95c7b01c -/
-def GraphPy.optimize_rel_diff_final {E : Type} [ScalarF E] (eps chi2_prev chi2 : E) : E :=
-  (ScalarF.div (chi2_prev - chi2) (chi2_prev + eps))
-
-/-- `graphslam/graph.py:519`  `ret.converged = self._chi2 <= chi2_prev and rel_diff < tol`  sha256 9d48d44262caa558 -/
-def GraphPy.optimize_stop_final {E : Type} [ScalarF E] (tol chi2_prev chi2 rel_diff : E) : Bool :=
-  (ScalarF.ge chi2_prev chi2 && ScalarF.gt tol rel_diff)
-
-/-- `graphslam/graph.py:438`  `if fix_first_pose:`  sha256 da20d5d3014bc692 -/
-def GraphPy.optimize_fix_first_index  : Nat :=
-  0
-
-/-- `graphslam/graph.py:442`  `self._fixed_gradient_indices = {v.gradient_index for v in self._vertices if v.fixed}`  sha256 2512acc189168302 -/
-def GraphPy.optimize_fixed_set (flags : List Bool) (gidx : List Nat) : List Nat :=
-  ((flags.zip gidx).filter (fun v => v.1)).map (fun v => v.2)
-
-/-- `graphslam/graph.py:279`  `for (idx1, idx2), contrib in incoming[2]:`  sha256 f006d6f54f5c9257 -/
-def GraphPy.update_hessian_key (idx1 idx2 : Nat) : Nat × Nat :=
-  if (decide (idx1 ≤ idx2)) then (idx1, idx2) else (idx2, idx1)
-
-/-- `graphslam/graph.py:279`  `for (idx1, idx2), contrib in incoming[2]:`  sha256 f006d6f54f5c9257 -/
-def GraphPy.update_hessian_transposed (idx1 idx2 : Nat) : Bool :=
-  if (decide (idx1 ≤ idx2)) then false else true
-
-/-- `graphslam/graph.py:380`  `if gradient_idx not in self._fixed_gradient_indices:`  sha256 60a47f851d63f8fa -/
-def GraphPy.fill_gradient_test (fixed : List Nat) (g : Nat) : Bool :=
-  (!(fixed).contains g)
-
-/-- `graphslam/graph.py:389`  `if hessian_row_idx in self._fixed_gradient_indices or hessian_col_idx in self._fixed_gradient_indices:`  sha256 60cce1cd864eac48 -/
-def GraphPy.fill_hessian_fixed_test (fixed : List Nat) (r c : Nat) : Bool :=
-  ((fixed).contains r || (fixed).contains c)
-
-/-- `graphslam/graph.py:391`  `if hessian_row_idx == hessian_col_idx:`  sha256 db7c929bbc91e916 -/
-def GraphPy.fill_hessian_fixed_diag_test (r c : Nat) : Bool :=
-  (r == c)
-
-/-- `graphslam/graph.py:401`  `if hessian_row_idx != hessian_col_idx:`  sha256 019e0ccaa147998f -/
-def GraphPy.fill_hessian_mirror_test (r c : Nat) : Bool :=
-  (r != c)
-
-/-- `graphslam/graph.py:408`  `if v.gradient_index in self._fixed_gradient_indices:`  sha256 fcdd3a4c4da86c63 -/
-def GraphPy.fill_fixed_vertex_test (fixed : List Nat) (g : Nat) : Bool :=
-  (fixed).contains g
-
-/-- `graphslam/graph.py:340`  `gradient_index = 0`  sha256 8d2afdbd50f81dbd -/
-def GraphPy.initialize_first_index  : Nat :=
-  0
-
-/-- `graphslam/edge/base_edge.py:188`  `jacobian[:, d] = (self.calc_error() - err) / self._NUMERICAL_DIFFERENTIATION_EPSILON`  sha256 2c5e8b0e66615be9 -/
-def GraphPy.numjac_fd_entry {E : Type} [ScalarF E] (eps err0 errd : E) : E :=
-  (ScalarF.div (errd - err0) eps)
-
-end GraphSlam.Gen
+/-! GENERATED: graph.py snippets could NOT be located in the current source:
+graphslam/graph.py:417: optimize writes `max_update`, which the model does not account for -/
